@@ -1418,6 +1418,8 @@ class Interp:
             if "__getattr__" in obj.methods:
                 return obj.methods["__getattr__"](self.ctx, obj, (attr,), {})
             raise Unsupported(f"attribute {attr!r} of {obj.cls} not modelled", node)
+        if obj is None and (not attr.startswith("__") or attr == "__dict__"):
+            raise PyRaise(ExcVal("AttributeError", (f"'NoneType' object has no attribute {attr!r}",), origin=f"None.{attr}@{getattr(node, 'lineno', 0)}"))
         if isinstance(obj, ExcVal):
             if attr == "args":
                 return obj.args
@@ -1628,6 +1630,10 @@ class Interp:
     def ex_Yield(self, e, env):
         """@contextmanager units: the with-body is an arbitrary effect that returns or throws."""
         v = self.eval(e.value, env) if e.value is not None else None
+        if self.hooks.get("generator"):
+            # a generator function (not a context manager): the yielded values are the result, nothing is thrown in
+            self.ctx.event("yield", v)
+            return None
         h = self.hooks.get("yield")
         if h:
             h(self.ctx, self, v, env)
@@ -1751,6 +1757,14 @@ class Interp:
         if isinstance(obj, (tuple, set, frozenset)) and is_concrete(obj) and all(is_concrete(a) for a in args):
             if name in ("count", "index", "union", "intersection", "difference", "issubset"):
                 return getattr(obj, name)(*args)
+        if isinstance(obj, set) and name in ("add", "discard", "remove", "update", "copy", "clear", "pop") and all(is_concrete(a) and not isinstance(a, (Rec, list, dict)) for a in args if not isinstance(a, (set, frozenset, list, tuple))):
+            # a concrete set of hashable concrete values (strings, numbers, tuples of them): CPython's own set
+            try:
+                r = getattr(obj, name)(*args)
+            except KeyError:
+                raise PyRaise(ExcVal("KeyError", tuple(args), origin=f"set.{name}@{node.lineno}"))
+            ctx.mutated(obj)
+            return r
         if isinstance(obj, ClassRef):
             k = f"{obj.name}.{name}"
             if k in self.calls:
@@ -2005,6 +2019,21 @@ def _b_sorted(interp, args, kwargs, node):
     x = args[0]
     if is_concrete(x) and not kwargs:
         return sorted(x)
+    if is_concrete(x) and set(kwargs) <= {"key", "reverse"} and isinstance(x, (list, tuple, set, frozenset)):
+        base = list(x)
+        if isinstance(x, (set, frozenset)):
+            # a set iterates in an unspecified order and sorted() is stable: every iteration order is explored
+            import itertools
+            elems = sorted(x, key=repr)
+            if len(elems) > 4:
+                raise Unsupported("sorted(set, key=...) of more than 4 elements", node)
+            perms = list(itertools.permutations(elems))
+            base = list(perms[interp.ctx.choose(len(perms), f"set-iteration-order@{node.lineno}")]) if len(perms) > 1 else elems
+        keys = [interp.call_value(kwargs["key"], (e,), {}, node) for e in base] if kwargs.get("key") is not None else base
+        if not all(is_concrete(k) for k in keys) or not isinstance(kwargs.get("reverse", False), bool):
+            raise Unsupported("sorted with a symbolic key", node)
+        order = sorted(range(len(base)), key=lambda i: keys[i], reverse=kwargs.get("reverse", False))
+        return [base[i] for i in order]
     raise Unsupported("sorted of symbolic value", node)
 
 
@@ -2013,8 +2042,15 @@ def _b_getattr(interp, args, kwargs, node):
     if not isinstance(name, str):
         raise Unsupported("getattr with symbolic name", node)
     if isinstance(obj, Rec):
-        if name in obj.attrs or name in obj.methods or "__getattr__" in obj.methods:
+        if name in obj.attrs or name in obj.methods:
             return interp.getattr(obj, name, node)
+        if "__getattr__" in obj.methods:
+            try:
+                return interp.getattr(obj, name, node)
+            except PyRaise as pr:
+                if len(args) > 2 and pr.exc.cls == "AttributeError":
+                    return args[2]
+                raise
         if len(args) > 2:
             return args[2]
         raise PyRaise(ExcVal("AttributeError", (name,), origin=f"getattr@{node.lineno}"))
@@ -2035,12 +2071,18 @@ def _b_hasattr(interp, args, kwargs, node):
         if "__hasattr__" in obj.methods:
             return obj.methods["__hasattr__"](interp.ctx, obj, (name,), {})
         return name in obj.attrs or name in obj.methods
+    if isinstance(name, str) and (obj is None or type(obj) in (dict, list, tuple, str, int, float, bool, set, frozenset)):
+        return hasattr(obj, name)  # concrete built-in value: CPython's own answer
     raise Unsupported("hasattr on non-record", node)
 
 
 def _b_setattr(interp, args, kwargs, node):
     obj, name, v = args
     if isinstance(obj, Rec) and isinstance(name, str):
+        setter = obj.methods.get("__setattr__")
+        if setter:
+            setter(interp.ctx, obj, (name, v), {})
+            return None
         obj.attrs[name] = v
         interp.ctx.mutated(obj)
         return None
@@ -2118,13 +2160,19 @@ def _b_max(interp, args, kwargs, node):
     raise Unsupported("max", node)
 
 
+def _b_vars(interp, args, kwargs, node):
+    if len(args) == 1 and isinstance(args[0], Rec) and isinstance(args[0].attrs.get("__dict__"), dict):
+        return args[0].attrs["__dict__"]
+    raise Unsupported("vars() of a value without a modelled __dict__", node)
+
+
 BUILTINS = {
     n: BuiltinFn(f, n)
     for n, f in dict(
         len=_b_len, range=_b_range, isinstance=_b_isinstance, str=_b_str, bool=_b_bool, list=_b_list, tuple=_b_tuple,
         set=_b_set, dict=_b_dict, enumerate=_b_enumerate, zip=_b_zip, all=_b_all, any=_b_any, sorted=_b_sorted,
         getattr=_b_getattr, hasattr=_b_hasattr, setattr=_b_setattr, delattr=_b_delattr, int=_b_int, type=_b_type,
-        min=_b_min, max=_b_max, next=_b_next,
+        min=_b_min, max=_b_max, next=_b_next, vars=_b_vars,
     ).items()
 }
 
